@@ -370,9 +370,13 @@ func TestProviderStore(t *testing.T) {
 		if err := readJSON(e.Replay, &wrap); err != nil {
 			t.Fatal(err)
 		}
-		ch := &sim.ReplayChooser{Seq: wrap.Replay.Choices}
-		evs := runPS(t, wrap.Replay.Scenario, ch)
-		rec.Record(evs, psReplay{wrap.Replay.Scenario, ch.Taken()}, nontriv(evs))
+		// Which of two goroutines waiting for the manager's mutex gets it is the runtime's choice, not the
+		// schedule's: the recorded schedule is repeated a number of times (a breach counts if any repetition shows it)
+		for i := 0; i < 24; i++ {
+			ch := &sim.ReplayChooser{Seq: wrap.Replay.Choices}
+			evs := runPS(t, wrap.Replay.Scenario, ch)
+			rec.Record(evs, psReplay{wrap.Replay.Scenario, ch.Taken()}, nontriv(evs))
+		}
 		return
 	}
 	r := rand.New(rand.NewSource(e.Seed))
